@@ -141,16 +141,38 @@ def job_global2d(NX, NY, which, via):
         res.append(prove('%s/attained[%d]' % (tag, pi), q.st.pc, z3.Or(*[v == eff * f for f in fs]), 30000, mv, key='C08/global2d/%s/attained' % which))
     return res
 
+HP, HM = z3.Real('hp'), z3.Real('hm')
+SEQS = {'set': [('set_prefactor', [HP])], 'multiply': [('multiply', [HM])], 'set,multiply': [('set_prefactor', [HP]), ('multiply', [HM])], 'multiply,multiply': [('multiply', [HP]), ('multiply', [HM])],
+        'multiply,set': [('multiply', [HM]), ('set_prefactor', [HP])], 'set,eval,multiply': [('set_prefactor', [HP]), ('interpolate', [z3.Real('h1')]), ('multiply', [HM])]}
+EFF = {'set': HP, 'multiply': HM, 'set,multiply': HP * HM, 'multiply,multiply': HP * HM, 'multiply,set': HP, 'set,eval,multiply': HP * HM}
+
+def job_history_extrema(N, sname, which):
+    """real-constructor object, a sequence of Set_Prefactor/Multiply calls, then Global_Minimum/Maximum: equals min/max of (effective prefactor * knot values)"""
+    mod = GMOD['m']; res = []; tag = 'history-global_%s/N%d/%s' % (which, N, sname)
+    xs, ys, fr = run_history(mod, N, SEQS[sname] + [('global_' + which, [])])
+    eff = EFF[sname]; le = (lambda a, b: a <= b) if which == 'min' else (lambda a, b: a >= b)
+    mv = {'xs': xs, 'ys': ys, 'hp': HP, 'hm': HM, 'N': N, 'seq': sname, 'which': which}
+    dom = [z3.Real('h1') >= xs[0], z3.Real('h1') <= xs[N - 1]]
+    for pi, (st, _, v) in enumerate(fr):
+        v = toR(v)
+        for k in range(N): res.append(prove('%s/bounds-knot%d[%d]' % (tag, k, pi), st.pc + dom, le(v, eff * ys[k]), 30000, mv, key='C08/history-global/%s/bounds-knot' % which))
+        res.append(prove('%s/attained[%d]' % (tag, pi), st.pc + dom, z3.Or(*[v == eff * y for y in ys]), 30000, mv, key='C08/history-global/%s/attained' % which))
+    if not fr: res.append(ob(tag + '/reach', 'broken', detail='no path'))
+    return res
+
 def jobs(ctx):
     GMOD['L'] = layout(module(ctx)); b = BOUNDS[ctx.tier]; J = []
+    for sn in SEQS:
+        for w in ('min', 'max'): J.append((job_history_extrema, (3, sn, w)))
+    for nx, ny in b['grid2d']:
+        for w in ('min', 'max'):
+            for via in ('set', 'multiply'): J.append((job_global2d, (nx, ny, w, via)))
+    if not GMOD['L']['complete']: return J + [(layout_guard, (GMOD['L'], 'C08'))]
     for N in b['N']:
         for jl, corr in [(0, 0), (N - 2, 1)] + ([(1, 1)] if N > 3 else []):
             J.append((job_integrate, (N, jl, corr)))
             for w in ('min', 'max'): J.append((job_local, (N, jl, corr, w)))
         for w in ('min', 'max'): J.append((job_global, (N, w)))
-    for nx, ny in b['grid2d']:
-        for w in ('min', 'max'):
-            for via in ('set', 'multiply'): J.append((job_global2d, (nx, ny, w, via)))
     return J
 
 def validate(ctx):
@@ -176,6 +198,17 @@ def replay(ctx, o):
     so = native(ctx); m = o['model'] or {}; key = o['key']
     if 'xs' not in m: return False, 'no model'
     xs = [q2f(q) for q in m['xs']]; ys = [q2f(q) for q in m['ys']]
+    if key.startswith('C08/history-global'):
+        if any(a >= b for a, b in zip(xs, xs[1:])): return False, 'abscissae collapse'
+        hp, hm = q2f(m['hp']), q2f(m['hm']); seq = m['seq']; ops = []; a = []
+        for nme in seq.split(','):
+            ops.append({'set': 30, 'multiply': 31, 'eval': 0}[nme]); a.append({'set': hp, 'multiply': (hm if (nme == 'multiply' and not (seq == 'multiply,multiply' and len(ops) == 1)) else hp), 'eval': 0.5 * (xs[0] + xs[1])}[nme])
+        ops.append(13 if m['which'] == 'min' else 14); a.append(0.0)
+        r = nat.call(so, 'verif_c09_history', [('u32', len(xs)), ('dbl[]', xs), ('dbl[]', ys), ('u32', len(ops)), ('i32[]', ops), ('dbl[]', a), ('dbl[]', [0.0] * len(ops))])
+        if r['status'] != 'ok': return True, 'native history ended: %s' % r['status']
+        eff = {'set': hp, 'multiply': hm, 'set,multiply': hp * hm, 'multiply,multiply': hp * hm, 'multiply,set': hp, 'set,eval,multiply': hp * hm}[seq]
+        vals = [eff * y for y in ys]; tru = min(vals) if m['which'] == 'min' else max(vals); sc = max(abs(t) for t in vals) or 1.0
+        return abs(r['ret'] - tru) > 1e-9 * sc, 'native [%s] then Global_%s = %r; effective prefactor %r times knot values gives %r' % (seq, m['which'], r['ret'], eff, tru)
     if any(a >= b for a, b in zip(xs, xs[1:])): return False, 'abscissae collapse in double precision'
     pref = q2f(m['pref'])
     if key.startswith('C08/global2d'):
